@@ -285,6 +285,12 @@ class _Subst(ast.NodeTransformer):
     def visit_arg(self, n):
         return n
 
+    def visit_ExceptHandler(self, n):
+        # `except E as name`: the bound name is a plain string on the handler node, not a Name node
+        if n.name is not None and n.name in self.renames:
+            n.name = self.renames[n.name]
+        return self.generic_visit(n)
+
     def _inner(self, bound_here):
         return _Subst({k: v for k, v in self.mapping.items() if k not in bound_here}, {k: v for k, v in self.renames.items() if k not in bound_here})
 
